@@ -16,13 +16,13 @@ CHECKS = {
             "Every route returned by Dijkstra, A*, single-via KSP (incl. the re-oriented reverse half), both directions and orientations, is walked edge by edge: reported state = reference accumulation of length, length/speed and classified turn delay in the configured units, each edge's cost = weighted rated change of the reported state, monotone distance/time, declared initial state; raw, factor, offset and combined vehicle rates; a re-opening sweep under weighted A* (factors 1.5-10) on the lattice and on the uneven line.",
             "Trusted: refmodel arithmetic in world/sw.rs. Edge-oriented origin/destination edges may follow the zero-cost convention (statement's exception).", "§4.3"),
     "C04": ("E1", "bounded-exhaustive enumeration of multigraphs x restriction configurations built by the repository's own frontier services on the real search vs raw restriction inputs in physical units",
-            "For every enumerated network: road-class tables x allowed sets (numeric and mapped names), the six vehicle-restriction kinds with limit and vehicle one step apart in different units, every pair (and some triples) of kinds as several rows on the same edge, every single restricted turn and pairs of them, combined models of 2-3 members, and edge cuts (EdgeCutFrontierModel); Dijkstra, A*, single-via KSP, forward/reverse, vertex/edge orientation; every route and tree edge must be permitted by the raw inputs, no consecutive route pair may be a restricted turn.",
+            "For every enumerated network: road-class tables x allowed sets (numeric and mapped names), the six vehicle-restriction kinds with limit and vehicle one step apart in different units, every pair (and some triples) of kinds as several rows on the same edge, the empty allowed class set, every single restricted turn and pairs of them, combined models of 2-3 members, and edge cuts (EdgeCutFrontierModel); Dijkstra, A*, single-via KSP, forward/reverse, vertex/edge orientation; every route and tree edge must be permitted by the raw inputs, no consecutive route pair may be a restricted turn; Yen's algorithm (which wraps the query's frontier model for its spur searches) runs the same clauses in worker processes over networks whose least-cost route has >= 3 edges x one forbidden edge off that route.",
             "Trusted: reference evaluation of restrictions (refmodel units, 1e-3 dead band). Origin/destination edges of edge-oriented queries are chosen among permitted edges.", "§4.4"),
     "C05": ("E1", "bounded-exhaustive enumeration of (also disconnected) multigraphs x edge-local restriction sets on the real search vs BFS reachability / Bellman-Ford labels",
             "For every enumerated network, restriction set, algorithm, direction and orientation: Ok with a valid non-empty route iff the destination is BFS-reachable over permitted edges, otherwise exactly the no-path error; destination-less searches return exactly the reachable set with least-cost labels.",
             "Trusted: refmodel BFS/Bellman-Ford. Restrictions are an edge-set frontier model supplied by the harness (the repository's own restriction models are exercised in C04).", "§4.5"),
     "C06": ("E2+E1+E3", "exhaustive enumeration of batch histories x configurations on the real CompassApp::run vs alone-responses; exhaustive weight vectors on the load balancer; stateless schedule exploration (preemption-bounded DFS over lock/write points) of the real batch workers",
-            "(a) every ordered batch of length 1-3 (quick) / 1-4 (thorough) over 7 query kinds x configured parallelism 1-4 x per-run override x balancer {none, haversine, custom} x both persistence policies: the multiset of projected responses equals the union of what each query returns alone, count = sum of expansions, file and returned responses agree; (b) all weight vectors {absent,0,1,2,5}^n (n<=5/6) x parallelism 1-4 through apply_load_balancing_policy: every query in exactly one of <= parallelism bins, balanced; (c) E3: 2x2 scenario explored completely (3 864 schedules), 3-task and shared-prediction-cache scenarios (warm cache; cold cache = a fresh application built for every explored schedule, with the workers meeting the cache keys in the same and in different orders) up to a preemption bound: each task's returned responses equal the alone-responses in order, no deadlock.",
+            "(a) every ordered batch of length 1-3 (quick) / 1-4 (thorough) over 7 query kinds x configured parallelism 1-4 x per-run override x balancer {none, haversine, custom} x configured persistence policy x {run states persist, discard, nothing} (twelve configurations in parallel worker processes): the multiset of projected responses equals the union of what each query returns alone, count = sum of expansions, file and returned responses agree; (b) all weight vectors {absent,0,1,2,5}^n (n<=5/6) x parallelism 1-4 through apply_load_balancing_policy: every query in exactly one of <= parallelism bins, balanced; (c) E3: 2x2 scenario explored completely (3 864 schedules), 3-task and shared-prediction-cache scenarios (warm cache; cold cache = a fresh application built for every explored schedule, with the workers meeting the cache keys in the same and in different orders) up to a preemption bound: each task's returned responses equal the alone-responses in order, no deadlock.",
             "Trusted: rayon's scheduler/collect; structural argument that shared state is only behind the hooked mutex sites and the file (DESIGN §2.3); floats compared at 12 significant digits (hash-ordered sums).", "§4.6"),
     "C07": ("E1", "bounded-exhaustive enumeration of cost configurations x state-pair lattice on CostModel and EdgeTraversal vs closed-form cost",
             "Every cost configuration of the alphabet (1-3 features, weights incl. zero and negative, 8 rate mappings incl. nested combined for 2-3 features and, for one feature, every rate term of bounded shape (atoms and Combined lists up to length 2/3 whose elements are atoms or nested Combined lists), 5 network rates, sum/mul) is evaluated on every (prev,next) pair of the {-2..2}^k lattice through traversal_cost, access_cost, cost_estimate and through forward/reverse EdgeTraversal with synthetic access/traversal models: finite, strictly positive (non-negative for estimates), equal to the formula with floor under sum, linear in weights, zero-weight features ignored.",
@@ -34,7 +34,7 @@ CHECKS = {
             "Every ordered unit pair of all six families and every constructor unit triple is executed on the implementation and compared with SI factors, linearity, identity and round-trip laws; the pair space is finite and covered completely.",
             "Trusted: reference factors in harness/src/refmodel/units.rs; magnitudes outside the alphabet follow from linearity of constant-factor tables.", "§4.9"),
     "C10": ("E1", "bounded-exhaustive enumeration of tie-free multigraphs x every limit value 0..N+3 of every limit kind on the real search, work observed through a recording frontier model",
-            "For every tie-free network the unlimited search is compared with the same search under every iteration / solution-size / combined limit value from 0 to beyond what it needed, generous runtime budgets (frequency 1/2/5) and exhausted ones (2 ms limit, 3 ms sleep inside the k-th traversal): observed expansions <= limit, labelled vertices <= limit + max degree, terminated error names the limit, any returned result identical to the unlimited one, success monotone, stop at the next scheduled check. Yen's algorithm (whose spur searches run under the same limits) is swept inside sandbox worker processes over a path+detour family: a result under a limit is identical to the unlimited one or a terminated error, never a shorter list of routes.",
+            "For every tie-free network the unlimited search is compared with the same search under every iteration / solution-size / combined limit value from 0 to beyond what it needed, generous runtime budgets (frequency 1/2/5) and exhausted ones (2 ms limit, 3 ms sleep inside the k-th traversal): observed expansions <= limit, labelled vertices <= limit + max degree, terminated error names the limit, any returned result identical to the unlimited one, success monotone, stop at the next scheduled check; under Dijkstra the iteration limit is compared with the reference pop count (the search completes iff the limit exceeds the number of vertices nearer than the destination, dead ends included). Yen's algorithm (whose spur searches run under the same limits) is swept inside sandbox worker processes over a path+detour family: a result under a limit is identical to the unlimited one or a terminated error, never a shorter list of routes.",
             "Trusted: recording frontier/traversal wrappers (harness). Expansions of vertices without incident edges are invisible (lower bound, cannot false-alarm). KSP: result-level clauses only.", "§4.10"),
     "C11": ("E2+E1", "explicit-state breadth-first search over insert histories applied to live CompactOrderedHashMap objects vs Vec<(K,V)> reference; bounded-exhaustive feature-set enumeration for the state model",
             "All ordered key lists over 7 (quick) / 8 (thorough) keys are reached by BFS from the empty map (13 700 / 109 601 states), every insert/overwrite transition is executed on a live clone and the whole public API compared with the reference; constructors new/collect/from for every distinct-key list and every duplicate-key list, followed by 1-2 further inserts; state models of 0..8(9) features over 16 feature kinds through new/extend/TryFrom/SearchApp::build_search_instance with slot-bijection, initial-state and get/set/add round-trip clauses.",
@@ -46,7 +46,7 @@ CHECKS = {
             "Every enumerated network x {single-via, Yen} x k x similarity (accept-all, cosine thresholds below, at and above 1) x termination criterion (exact, max-iteration 5 / 1 / 0, factor 2 / 0) x underlying search (k from configuration or query): 1..k routes when reachable, first is least cost (Bellman-Ford), every route passes the C01 structure clauses, is loop free and passes the C03 accumulation oracle, pairwise distinct, pairwise below the similarity threshold (reference cosine), accept-all >= any threshold, terminates within the deadline, never an error for an answerable query.",
             "Trusted: sandbox classification of hangs; reference similarity. Yen's quick tier uses a covering half of its configuration product (its hanging cases cost a full timeout each).", "§4.13"),
     "C14": ("E1", "bounded-exhaustive enumeration of grids x multilinear data x point lattices on the real interpolators; bundled models x grids x lattices on the interpolated powertrain model vs the separately loaded underlying model",
-            "(a) uniform and non-uniform axes (2-4 knots, and linspace grids whose accumulated last knot falls short of the nominal bound), dimensions 1,2,3 and N=2..4, every multilinear coefficient combination (covering subset for N>=3), lattice of knots / midpoints / quarter points / bounds / bounds+-1e-9 / far outside: equality inside, agreement fixed-D vs N-D also on non-multilinear data, Err outside. (b) 6 (quick) / 45 (thorough) bundled random forests x 2-4 grids: prediction within min/max of the four surrounding underlying values, equality at grid points, continuity across grid lines, outside = nearest boundary, 3x3 input units, and 2 (quick) / 4 (thorough) unit declarations per model (speed and rate units built on different distance units).",
+            "(a) uniform and non-uniform axes (2-4 knots, and linspace grids whose accumulated last knot falls short of the nominal bound), dimensions 1,2,3 and N=2..4, every multilinear coefficient combination (covering subset for N>=3), lattice of knots / midpoints / quarter points / bounds / bounds+-1e-9 / far outside: equality inside, agreement fixed-D vs N-D also on non-multilinear data, Err outside. (b) 6 (quick) / 45 (thorough) bundled random forests x 2-4 grids: prediction within min/max of the four surrounding underlying values, equality at grid points, continuity across grid lines, outside = nearest boundary, 3x3 input units, the same grid configured through load_prediction_model, and 2 (quick) / 4 (thorough) unit declarations per model (speed and rate units built on different distance units).",
             "Trusted: smartcore model loaded separately as the oracle; grid coordinates from the repository's own linspace.", "§4.14"),
     "C15": ("E1", "bounded-exhaustive enumeration of edge/vertex lists x file variants loaded by the real loaders vs the lists themselves",
             "All G(3,m,2) multigraphs with self loops, stars and hubs with in/out degree 0..8 and isolated vertices are written as plain and gzip CSV in all 6 vertex column orders, with extra columns, with explicit or scanned counts, with and without a trailing newline, loaded through Graph::from_files and DefaultGraphBuilder and compared accessor by accessor (counts, edges by id, vertices, out/in edge sets, triplets, forward = reverse view); per-edge tables (speed, grade, class, heading) row-aligned; bindings accessors.",
@@ -55,16 +55,16 @@ CHECKS = {
             "Vertex subsets of a 3x3 lattice (sizes 1-4 and 7-9 quick, all 511 thorough) and 231 edge sets (every edge and pair of a 14-edge pool, sets of 7-14 records, all 14 with one bent edge; straight, bent, hairpin and detour geometries) x 52 query points (inside, on, beyond the network, far away) x 17 tolerances (none; 100/700/1300/5000 m in 4 units) x 6 road-class/vehicle filters: the matched id is in the argmin of the plugin's own measure over admissible candidates, beyond tolerance is an error, within tolerance always matches, all other query fields unchanged.",
             "Trusted: exhaustive scan reference; ties accepted; cases within 2e-3 of the tolerance boundary skipped.", "§4.16"),
     "C17": ("E1", "bounded-exhaustive enumeration of grid-search sections on the real plugin vs reference Cartesian product",
-            "1-3 grid fields x sizes 1-3(4) x element kinds (scalar, object with 1-2 keys, mixed) x every key order x extra fields x section position, through GridSearchPlugin::process and apply_input_plugins: canonical multiset of outputs equals the reference product, count = product of sizes, no grid key left, extras preserved, pass-through unchanged.",
-            "Trusted: reference product (props/c17.rs). Object-valued choices use disjoint keys.", "§4.17"),
+            "1-3 grid fields x sizes 1-3(4) x element kinds (scalar, object with 1-2 keys, mixed, object whose key is also a field of the query) x every key order x extra fields x section position, through GridSearchPlugin::process and apply_input_plugins: canonical multiset of outputs equals the reference product, count = product of sizes, no grid key left, extras preserved, pass-through unchanged.",
+            "Trusted: reference product (props/c17.rs). Object-valued choices of different grid fields use disjoint keys; expansions run in worker processes (a case that does not come back is a violation).", "§4.17"),
     "C19": ("E3+E2", "stateless schedule exploration (CHESS-style preemption-bounded DFS over every lock, write and flush on the shared sink, each schedule re-run from scratch on the real worker code) + explicit enumeration of append histories",
             "(a) K one-thread worker pools each run the real run_batch_with_responses / run_batch_without_responses against one shared ResponseSink (JSON lines and CSV, flush rate 1/2, both persistence policies, successes and errors of different sizes): all schedules of the 2x2 scenarios (2 630 - 3 864 each, no bound), 3-task scenarios up to preemption bound 2-3 (quick) / 3-5 (thorough); two scenarios with one Combined sink over a JSON-lines and a CSV file (both files judged); thorough: in addition the matrix {2,3} tasks x {1,2} queries x {jsonl, csv, combined} x flush 1-3 x keep/discard under bound 2 (72 scenarios); scenarios run in parallel worker processes; oracle on the final file: one terminated record per response, every JSON line parses, multiset of records = responses produced, CSV single header + rows per mapping in header order, no deadlock; all 6 (60) file orders observed. (b) histories of 1-2(3) runs appending to one file x 4 formats x persistence x parallelism: single header, rows accumulate, returned responses keep their information, input-plugin failures are written.",
             "Trusted: same as C06 (c). Replaying a prefix must reproduce the same (task,event) sequence or the run aborts as a machinery error; violating schedules are replayed twice by the replay command.", "§4.19"),
     "C20": ("E1", "bounded-exhaustive enumeration of routes/trees x geometry tables x 5 output formats through the real output plugins vs edge sequence and stored geometries",
-            "Every enumerated network with a route is rendered through the real summary / traversal / uuid plugins in edge_id, json, geo_json, wkt and wkb (single routes and several KSP routes, trees, full geometry table and a table one row short, the latter also with the route rendering alone and the tree rendering alone so that one cannot mask the other): ids and per-edge records follow the returned edge sequence, geometry = concatenation of stored geometries in order, a missing geometry is an error response, one tree entry per branch, uuids of the matched vertices (identifier tables plain and gzip, with and without an empty identifier in a middle row), summary = last state; plus an application-level pass per format.",
+            "Every enumerated network with a route is rendered through the real summary / traversal / uuid plugins in edge_id, json, geo_json, wkt and wkb (single routes and several KSP routes, trees, full geometry table and a table one row short, the latter also with the route rendering alone and the tree rendering alone so that one cannot mask the other): ids and per-edge records follow the returned edge sequence, geometry = concatenation of stored geometries in order, a missing geometry is an error response, one tree entry per branch, uuids of the matched vertices (identifier tables plain and gzip, with and without an empty identifier in a middle row), summary = last state; the destination-less query (trees, no route) in every format; plus an application-level pass per format.",
             "Trusted: WKT parser in the harness, wkb crate for decoding; coordinates compared at 1e-6.", "§4.20"),
     "C18": ("E1", "exhaustive enumeration of all digraphs up to n vertices on the real code vs Floyd-Warshall reference",
-            "All 2^(n^2) digraphs with self loops for n<=4 (quick) / n<=5 (thorough), all multiplicity<=2 multigraphs on 3 vertices and structured families up to 60 vertices are run through the real component analysis and compared with mutual-reachability classes.",
+            "All 2^(n^2) digraphs with self loops for n<=4 (quick) / n<=5 (thorough), all multiplicity<=2 multigraphs on 3 vertices structured families up to 60 vertices and long one-way structures of 1000-2500 vertices (linear-time reference, cross-checked against the cubic one on every small graph) are run through the real component analysis and compared with mutual-reachability classes.",
             "Trusted: Floyd-Warshall reference (refmodel/graph.rs). Graphs beyond 5 vertices only via structured families.", "§4.18"),
 }
 
